@@ -14,7 +14,7 @@ import (
 	log "github.com/go-spring/log"
 )
 
-var c16ops = []string{"RA", "RB", "RE", "RL1", "RL2", "RL3", "RL4", "RL5", "D", "LT", "WH", "RT", "GH"}
+var c16ops = []string{"RA", "RB", "RE", "RL1", "RL2", "RL3", "RL4", "RL5", "RL6", "D", "LT", "WH", "RT", "GH"}
 
 func c16cfgA() map[string]string {
 	return map[string]string{
@@ -67,7 +67,7 @@ func (rn *c16run) exec(ops []string, fresh bool) (string, string) {
 		var st string
 		where := fmt.Sprintf("step %d (%s) in state %s", step, op, live)
 		switch op {
-		case "RA", "RB", "RE", "RL1", "RL2", "RL3", "RL4", "RL5":
+		case "RA", "RB", "RE", "RL1", "RL2", "RL3", "RL4", "RL5", "RL6":
 			var cfg map[string]string
 			switch op {
 			case "RA":
@@ -89,6 +89,13 @@ func (rn *c16run) exec(ops []string, fresh bool) (string, string) {
 			case "RL4": // an appender cannot be started (its directory does not exist): fails before any logger is started
 				cfg = c16cfgB()
 				cfg["appender.bad.type"], cfg["appender.bad.fileDir"], cfg["appender.bad.fileName"] = "File", "/nonexistent-c16/dir", "x.log"
+			case "RL6": // a requested handle name (h2) is not configured: fails while the handles are being bound (h1, asynchronous, may already be)
+				cfg = c16cfgB()
+				for k := range cfg {
+					if strings.HasPrefix(k, "logger.h2.") {
+						delete(cfg, k)
+					}
+				}
 			case "RL5": // a LOGGER that refuses to start (asynchronous, buffer below the minimum) after every appender was started
 				cfg = c16cfgB()
 				cfg["appender.extra.type"] = "VRec"
@@ -203,7 +210,16 @@ func (rn *c16run) exec(ops []string, fresh bool) (string, string) {
 			rn.rtN++
 			name := fmt.Sprintf("c16x%d", rn.rtN%6)
 			var t1, t2 *log.Tag
-			pv, _ = catch(func() { t1 = log.RegisterTag(name); t2 = log.RegisterTag(name) })
+			var rtDone bool
+			rtDone, pv, _ = callWithWatchdog(20*time.Second, func() { t1 = log.RegisterTag(name); t2 = log.RegisterTag(name) })
+			if !rtDone {
+				if k, gr := stuckInLibrary("watchdogMarker"); k != "" {
+					rn.w.Violate("C16:register-blocks", fmt.Sprintf("sequence %v, %s: RegisterTag(%q) does not return (%s inside the library)\n%s", ops, where, name, k, trunc(gr, 1000)), map[string]any{"ops": ops, "fresh": fresh})
+					rn.w.flush()
+					os.Exit(0)
+				}
+				return where + ": RegisterTag did not return within the watchdog (not parked in the library)", "inconclusive"
+			}
 			switch live {
 			case "none":
 				if pv != nil {
@@ -401,7 +417,7 @@ func c16Worker(w *W) {
 func init() {
 	register(&Prop{
 		ID: "C16", Level: "exploration", MinDistinct: 1000, Worker: c16Worker,
-		Rule: "operation sequences over the alphabet {Refresh valid A (sync, level INFO, enableCaller on), Refresh valid B (async, enableCaller off), Refresh invalid-early (rejected before anything is touched), Refresh invalid-late x5 (unknown logger type; property failure after a sync / an async configuration was started and bound; an appender that cannot be started; an asynchronous logger that refuses to start), Destroy, log via tag (level cycling), write via one of two named handles, register tag, obtain handles}: " +
+		Rule: "operation sequences over the alphabet {Refresh valid A (sync, level INFO, enableCaller on), Refresh valid B (async, enableCaller off), Refresh invalid-early (rejected before anything is touched), Refresh invalid-late x6 (unknown logger type; property failure after a sync / an async configuration was started and bound; an appender that cannot be started; an asynchronous logger that refuses to start; a requested handle name that is not configured), Destroy, log via tag (level cycling), write via one of two named handles, register tag, obtain handles}: " +
 			"ALL sequences of length 1..5 (quick) / 1..6 (thorough) chained in-process from the state 'nothing live', sequences of length 5-8 sampled, and every sequence of length <= 2 (quick) / <= 3 (thorough) executed as the very first thing a fresh process does. " +
 			"Model: live in {none, A, B, limbo}; outcomes per statement (second Refresh rejected and live routing + enableCaller undisturbed, Destroy idempotent, registration refused while live/possible otherwise, output on the console when nothing is live, A/B routing incl. async after flush); in limbo only totality is judged. " +
 			"distinct_nontrivial = number of distinct sequences whose every step matched the model (enumerated sequences are distinct by construction; sampled ones are de-duplicated).",
